@@ -34,6 +34,11 @@ def construct(seed, ids, k):
     raise ValueError(kind)
 
 
+def pyslice(h):
+    f = lambda b: None if b[0] == 0 else int(b[1])
+    return slice(f(h['lo']), f(h['hi']), int(h['step']))
+
+
 def step(regs, h, ids, k):
     """one public call; returns the outcome string"""
     op = h['op']
@@ -56,7 +61,7 @@ def step(regs, h, ids, k):
         if op == 'Update':
             d.update({c: arg(a, ids) for c, a in h['items']}); return 'ok'
         if op == 'Slice':
-            res = d[SLICES[h['sl']]]
+            res = d[SLICES[h['sl']]] if 'sl' in h else d[pyslice(h)]
         elif op == 'Mask':
             res = d[[bool(b) for b in h['mask']]]
         elif op == 'Take':
@@ -150,6 +155,119 @@ def check(ctx, snap, where):
     return got == exp
 
 
+POOL = [["n", 0], ["i", 1], ["i", 2], ["i", 0], ["s", "x"], ["s", ""], ["s", "yy"], ["f", [5, 2]], ["f", [1, 1]], ["nan", 1], ["nan", 2],
+        ["d", [730120, 0, 0]], ["d", [730121, 3600, 7]], ["b", 1]]
+COLS = ['a', 'b', 'c', 'e']
+
+
+def rand_event(rng, regs):
+    live = sorted(regs)
+    val = lambda: rng.choice(POOL)
+    def seed():
+        kind = rng.choice(['cols', 'cols', 'recs', 'rows'])
+        if kind == 'cols':
+            cols = rng.sample(COLS, rng.choice([0, 1, 2, 3]))
+            n = rng.choice([0, 1, 2, 3, 5])
+            args = []
+            for c in cols:
+                q = rng.random()
+                args.append(['s', val()] if q < 0.25 else ['l', [val()]] if q < 0.35 else ['l', [val() for _ in range(n if q < 0.93 else n + 1)]])
+            return {'kind': 'cols', 'cols': cols, 'args': args}
+        if kind == 'recs':
+            recs = []
+            for _ in range(rng.choice([1, 2, 3, 4])):
+                cs = rng.sample(COLS, rng.choice([1, 2, 3]))
+                recs.append([[c, val()] for c in cs])
+            return {'kind': 'recs', 'recs': recs}
+        hdrs = rng.sample(COLS, rng.choice([1, 2, 3]))
+        return {'kind': 'rows', 'hdrs': hdrs, 'rows': [[val() for _ in hdrs] for _ in range(rng.choice([0, 1, 2, 4]))]}
+    if not live or rng.random() < 0.12:
+        return {'op': 'New', 'rd': rng.choice(['r1', 'r2', 'r3']), 'seed': seed()}
+    r = rng.choice(live); d = regs[r]
+    try:
+        n = len(d)
+    except Exception:
+        n = 0
+    cols = list(dict.keys(d))
+    rd = rng.choice(['r1', 'r2', 'r3'])
+    op = rng.choice(['SetCol', 'SetCol', 'DelCol', 'Update', 'Slice', 'Slice', 'Mask', 'Take', 'Project', 'Derive', 'Do', 'Rename', 'Concat', 'AddRecord', 'Copy', 'AddNone', 'ConcatOne'])
+    def colarg():
+        q = rng.random()
+        if q < 0.3: return ['s', val()]
+        if q < 0.4: return ['l', [val()]]
+        if q < 0.85: return ['l', [val() for _ in range(n)]]
+        return ['l', [val() for _ in range(rng.choice([0, 2, n + 1, n + 2]))]]
+    if op == 'SetCol':
+        return {'op': op, 'r': r, 'c': rng.choice(COLS), 'arg': colarg()}
+    if op == 'DelCol':
+        return {'op': op, 'r': r, 'c': rng.choice(cols + ['e'] if cols else COLS)}
+    if op == 'Update':
+        return {'op': op, 'r': r, 'items': [[c, colarg()] for c in rng.sample(COLS, rng.choice([1, 2]))]}
+    if op == 'Slice':
+        b = lambda: [0, 0] if rng.random() < 0.35 else [1, rng.randint(-n - 2, n + 2)]
+        return {'op': op, 'r': r, 'rd': rd, 'lo': b(), 'hi': b(), 'step': rng.choice([1, 1, 2, 3, -1, -2])}
+    if op == 'Mask':
+        return {'op': op, 'r': r, 'rd': rd, 'mask': [rng.random() < rng.choice([0.0, 0.5, 0.5, 1.0]) for _ in range(n)]}
+    if op == 'Take':
+        return {'op': op, 'r': r, 'rd': rd, 'pos': [rng.randint(-n - 1, n) for _ in range(rng.choice([1, 2, 3]))] if rng.random() < 0.3 or n == 0
+                else [rng.randint(-n, n - 1) for _ in range(rng.choice([1, 2, 3, 5]))]}
+    if op == 'Project':
+        return {'op': op, 'r': r, 'rd': rd, 'cs': rng.sample(cols, rng.randint(1, len(cols))) if cols and rng.random() < 0.85 else ['a', 'e']}
+    if op == 'Derive':
+        c, f = rng.choice([('c', 'copy_a'), ('a', 'a_or_2'), ('b', 'const_x'), ('e', 'const_x'), ('e', 'copy_a')])
+        if f != 'const_x' and 'a' not in cols:
+            f = 'const_x'
+        return {'op': op, 'r': r, 'rd': rd, 'c': c, 'f': f}
+    if op == 'Do':
+        return {'op': op, 'r': r, 'rd': rd, 'cs': rng.sample(cols, rng.randint(0, len(cols))) if cols else []}
+    if op == 'Rename':
+        if not cols: return {'op': 'Copy', 'r': r, 'rd': rd}
+        fresh = [x for x in ('d', 'z', 'y') if x not in cols]
+        if not fresh: return {'op': 'Copy', 'r': r, 'rd': rd}
+        return {'op': op, 'r': r, 'rd': rd, 'c': rng.choice(cols), 'c2': rng.choice(fresh)}
+    if op == 'Concat':
+        return {'op': op, 'ra': r, 'rb': rng.choice(live), 'rd': rd}
+    if op == 'AddRecord':
+        return {'op': op, 'r': r, 'rd': rd, 'rec': [[c, val()] for c in rng.sample(COLS, rng.choice([1, 2]))]}
+    return {'op': op, 'r': r, 'rd': rd}
+
+
+def post(regs, ids):
+    live = sorted(regs)
+    p = {}
+    for r in ('r1', 'r2', 'r3'):
+        if r in regs:
+            t = observe(regs[r], ids)
+            for k in ('len', 'shape', 'iter', 'cells', 'bycol'):
+                t.setdefault(k, 'error:' + t.get('error', '?'))
+            p[r] = {'live': True, 'same': [s for s in live if regs[s] is regs[r]], 'table': t}
+        else:
+            p[r] = {'live': False}
+    return p
+
+
+def c2s(ctx, nhist):
+    obs = []
+    for i in range(nhist):
+        ids = IdMap(); regs = {}; events = []
+        for k in range(ctx.rng.choice([4, 8, 12, 20])):
+            e = rand_event(ctx.rng, regs)
+            e['out'] = step(regs, e, ids, ctx.rng.randint(0, 1))
+            e['post'] = post(regs, ids)
+            events.append(e)
+        obs.append({'events': events})
+        ctx.note(('c2s', i))
+    ctx.evals += sum(len(o['events']) for o in obs)
+    bad = ctx.validate('Trace_Dictable', obs)
+    for line, clause in bad:
+        ev = obs[line - 1]['events']
+        k = int(clause.split(':')[0][4:])
+        hist = [{kk: v for kk, v in e.items() if kk not in ('post',)} for e in ev[:k]]
+        ctx.violation(clause.split(':')[1], {'op': ev[k - 1]['op'], 'ops': [e['op'] for e in ev[:k]], 'hist': hist, 'source': 'c2s'},
+                      {'observed_post': ev[k - 1]['post'], 'observed_out': ev[k - 1]['out']})
+    ctx.sample({'recorded_history': [{kk: v for kk, v in e.items() if kk != 'post'} for e in obs[0]['events'][:6]]})
+
+
 def run(ctx):
     ctx.rule = ('every behaviour of the session state machine Dictable.tla (all call sequences of length <= 2 from the menus; simulated '
                 'sequences of length 6 and 10) replayed on real dictables; all live tables projected through column lists, len, shape, '
@@ -166,6 +284,7 @@ def run(ctx):
         for s in sims:
             check(ctx, s, cfg)
         ctx.sample({'history': sims[-1]['hist'], 'expected_out': sims[-1]['out']})
+    c2s(ctx, 250 if ctx.quick else 5000)
     ctx.exhaustive = False
     ctx.assumptions += ['column order is not part of the model (columns compared as sets)',
                         'd + None and dictable.concat(d) return their operand (named deviations AddNone / ConcatOne: aliases, not copies)',
